@@ -824,6 +824,14 @@ def Provides(*interfaces):  # pylint:disable=function-redefined
       declaration. The declarations are cached in a weak value dictionary.
     """
     spec = InstanceDeclarations.get(interfaces)
+    if isinstance(spec, ProvidesClass):
+        # Which interfaces are redundant depends on what the class implements
+        # *now*; only share a declaration that was built the same way.
+        current = _normalizeargs(
+            Declaration._add_interfaces_to_cls(interfaces[1:], interfaces[0])
+        )
+        if spec.__bases__ != tuple(current):
+            spec = None
     if spec is None:
         spec = ProvidesClass(*interfaces)
         InstanceDeclarations[interfaces] = spec
